@@ -58,8 +58,8 @@ func runC15(cfg *vh.Config) error {
 			prof.Supported, prof.Wild = false, 5
 		}
 		switch len(cases) {
-		case 2, 10, 18, 26:
-			// crafted split-name collisions (variants 1..4): either the reflection fails (nothing to
+		case 2, 10, 18, 26, 34:
+			// crafted split-name collisions (variants 1..5): either the reflection fails (nothing to
 			// round-trip) or the type-confused schemas must still survive the round trip
 			prof.Collide = 1 + len(cases)/8
 		}
